@@ -258,6 +258,16 @@ ADDED11 = {
 }
 for _pid, _t in ADDED11.items():
     CLAIMED[_pid]["text"] += _t
+
+# additions of round 12
+ADDED12 = {
+    "C07": " UnsubRaceSpec (Broker!UnsubscribeWide): an UNSUBSCRIBE with 900 filters nobody holds in front of the real one; the replayer waits for the UNSUBACK and for nothing else and sends the next stimulus from another connection at once - what is accepted after the UNSUBACK was sent is not delivered.",
+    "C11": " Refusal kind stall-halfconnect: while a connection is stuck in the middle of its CONNECT another client connects and gets CONNACK 0.",
+    "C13": " Thorough tier: 40,000 requests in flight on one queue (AckQueueLinTrace!BigSetup).",
+    "C19": " The server's own KeepAlive configuration option is set to 1 s in every run (what counts is what the CONNECT negotiated).",
+}
+for _pid, _t in ADDED12.items():
+    CLAIMED[_pid]["text"] += _t
 CLAIMED["C13"]["note"] = CLAIMED["C13"]["note"].replace("one caller at a time.", "one caller at a time in the graph walks and random drivers; concurrent callers in the linearizability trials (interleavings are whatever the scheduler produces around a spin barrier).")
 CLAIMED["C13"]["technique"] = "TLA+ specification (AckQueue) model-checked with TLC; state-graph replay + TLC trace validation (AckQueueTrace, AckQueueLinTrace)"
 CLAIMED["C16"]["technique"] = CLAIMED["C16"]["technique"] + "; life-cycle hook events validated by TLC against LifeTrace (Life is refined by Teardown)"
